@@ -28,7 +28,8 @@ PREDICTS = {
     'C10-swift-label': {'swift-label'},
     'C10-python-generic-alias': {'py-grammar', 'py-import-at-generic-alias'},
     'C10-python-empty-union': {'py-syntax'},
-    'C10-python-digit-name': {'py-syntax'},
+    'C10-python-digit-name': {'py-syntax', 'identifier', 'template'},
+    'C10-digit-name': {'identifier', 'template', 'ts-grammar'},
     'C10-python-generic-enum-arg': {'py-import-not-subscriptable'},
 }
 
@@ -80,6 +81,8 @@ def decorate(rng, prog):
             it.extra_attrs.append(f'#[typeshare(swiftGenericConstraints = "{it.generics[0]}: Equatable & Hashable")]')
         fields = list(it.fields) + [f for v in it.variants for f in v.fields]
         for f in fields:
+            if rng.random() < 0.02:
+                f.rename = rng.choice(['1st', '2-fa', '3_d'])
             c = rng.random()
             if c < 0.08:
                 f.extra_attrs.append(OVERRIDE)
@@ -228,6 +231,16 @@ def observe(lang, text):
     o = extract.extract(lang, text)
     decls, labels, fails, why = [], [], [], []
     for d in o['definitions']:
+        # every declared name must be an identifier (TypeScript: a quoted property name and the wire strings of an
+        # algebraic enum's alternatives are not identifier positions)
+        names = [(d['name'], d.get('ident_ok', True))]
+        names += [(m['name'], m.get('ident_ok', True)) for m in d['members'] if not (lang == 'typescript' and m.get('key_binding') == 'quoted')]
+        if not (lang == 'typescript' and d['kind'] == 'enum' and d.get('algebraic')):
+            names += [(v['name'], v.get('ident_ok', True)) for v in d['variants']]
+        for n, okk in names:
+            if not okk:
+                fails.append('identifier')
+                why.append(f'declared name {n!r} in {d["name"]} is not an identifier')
         if d['kind'] == 'helper':
             continue
         decls.append((d['name'], bool(d['escaped']), [(m['name'], bool(m['escaped'])) for m in d['members']]))
@@ -372,6 +385,9 @@ WITNESSES = [
     ('scala', {'package': 'com.x'}, '#[typeshare]\npub struct A { #[serde(default)] pub x: String }\n', 'C10-scala-default'),
     ('swift', {}, '#[typeshare]\npub struct A { pub r#let: String, pub inout: u8 }\n', 'C10-swift-label'),
     ('python', {}, '#[typeshare]\npub type A<T> = Vec<T>;\n', 'C10-python-generic-alias'),
+    ('kotlin', {'package': 'com.x'}, '#[typeshare]\npub struct S { #[serde(rename = "1st")] pub first: u8 }\n', 'C10-digit-name'),
+    ('typescript', {}, '#[typeshare]\npub struct S { #[serde(rename = "1st")] pub first: u8, #[serde(rename = "2-fa")] pub two: u8 }\n', 'C10-digit-name'),
+    ('go', {'package': 'p'}, '#[typeshare]\npub struct S { pub _1x: u8 }\n', 'C10-digit-name'),
     ('python', {}, '#[typeshare]\n#[serde(tag = "t", content = "c")]\npub enum G { #[serde(rename = "1a")] V(u8) }\n#[typeshare]\npub struct S { pub _1x: u8 }\n', 'C10-python-digit-name'),
     ('python', {}, '#[typeshare]\n#[serde(tag = "t", content = "c")]\npub enum G<T> { V(T) }\n#[typeshare]\npub type Al = Vec<G<u8>>;\n', 'C10-python-generic-enum-arg'),
 ]
@@ -445,7 +461,7 @@ def run(chk):
             chk.violation('ir-empty-union', {'items': {'enums': [empty]}, 'failures': fl, 'why': w, 'known': known},
                           f'IR witness of C10-python-empty-union behaves differently: {fl} {w} known={known}')
     # 2. generated programs
-    n = 200 if chk.tier == 'quick' else 2000
+    n = 200 if chk.tier == 'quick' else 6000
     cases = []
     with_consts = gen_programs(rng, n, True)
     without = gen_programs(rng, n, False)
